@@ -9,7 +9,7 @@ CLAIMS = {
    text="Every integer accounting clause of RawVoltageBackend.__init__ and the stand-alone helpers, and every float-to-int site "
         "(get_num_blocks, get_total_obs_num_samples, params_from_backend) in the rounding-error model, is a z3/cvc5-discharged "
         "obligation generated from the real source for all parameter values; a bounded native sweep (recordings of <= 6 tiny blocks) "
-        "replays the clauses incl. total_obs_num_samples and the antenna clock on the real code.",
+        "replays the clauses incl. total_obs_num_samples and the antenna clock on the real code. Also: record() on input data reports the clamped length; the integers a recording reports are exact in the floating-point model; the array clock advances by the samples delivered; from_backend_params uses all backend parameters.",
    note="trusted: pyvc engine + numpy/builtin axioms; fp-relerr standard model (no overflow, ints < 2^53); the record()-level clauses "
         "(clock advance, SCANLEN/PKTSTOP) are covered by the record contract shared with C02/C04 when present, else bounded only",
    technique="contract-based deductive verification: AST->z3 VC generation over the real functions (int + fp-relerr modes), cvc5 second opinion; bounded native replay"),
@@ -17,7 +17,7 @@ CLAIMS = {
    text="The frame invariant (uniform strictly increasing fs from fmin to fmax, fch1 per orientation, ts=i*dt, derived quantities) is a "
         "postcondition of the real Frame.__init__/from_data/from_backend_params proved at a symbolic channel/row for all sizes and both "
         "orientations; get_index nearest-channel and the index round trip (fp-relerr, fmin/df<=2^40, fchans<=2^26) are discharged; "
-        "opposite-orientation frames have equal axes over the reals. Bounded native probe round-trips every channel in floats.",
+        "opposite-orientation frames have equal axes over the reals. Bounded native probe round-trips every channel in floats. Also: derived quantities follow a re-timed frame (t_stop), the preloaded array is copied (compared with the caller's array).",
    note="trusted: pyvc engine, np.linspace/np.round axioms, real-mode arithmetic; 'identical injected data' follows from C01's postcondition mentioning only fs/ts",
    technique="contract-based deductive verification (AST->z3 VCs, arrays as index functions, fp-relerr for the round trip); bounded native replay"),
  'C17': dict(cat='proof', ref='DESIGN.md 2/C17',
@@ -48,7 +48,7 @@ CLAIMS = {
         "the sum of noise (ghost generator stream), chirp closed form and custom (incl. complex) sources is proved at a symbolic sample, three "
         "consecutive requests of symbolic sizes equal the one-shot request segment by segment (same clock, same generator position), clock "
         "setters and update_noise restore/move the clock exactly, an antenna stacks x,y and keeps its clock equal to its streams'. "
-        "Known finding F1 (two noise sources on one stream) is reported, not suppressed for other inputs.",
+        "Known finding F1 (two noise sources on one stream) is reported, not suppressed for other inputs. Also: an array returned by an earlier request is never written by a later one (ownership frame obligation).",
    note="trusted: pyvc engine; numpy Generator stream-splitting axiom (probed natively); real-mode time grid; cos uninterpreted; source loops unrolled for 2 noise + 3 signal sources",
    technique="contract-based deductive verification (AST->z3 VCs with ghost generator stream); bounded native replay"),
  'C15': dict(cat='proof', ref='DESIGN.md 2/C15',
@@ -81,7 +81,7 @@ CLAIMS = {
    text="The modifies-clause of add_signal is discharged: data changes by exactly the returned signal (one in-place write of the slice), pixels "
         "outside [b0,b1) keep their value, no attribute of the frame is rebound, axes/noise estimates/metadata/random state unchanged (also with "
         "smearing); ranges that do not intersect the band inject nothing and raise nothing; bounded = unbounded restricted to the range; two "
-        "successive injections add the sum of the separately computed signals in either order (over the reals).",
+        "successive injections add the sum of the separately computed signals in either order (over the reals). Also: injection through a cadence restores every time axis (C16's contract), frames built from an array own a copy (C05's contracts).",
    note="trusted: pyvc engine (aliasing by object identity, write counters); float summation order not modelled (reals); bit-for-bit clause replayed natively (tobytes equality)",
    technique="contract-based deductive verification (frame conditions, two-run relational lemmas); bounded native replay"),
  'C13': dict(cat='proof', ref='DESIGN.md 2/C13',
@@ -89,7 +89,7 @@ CLAIMS = {
         "of the requested type and width for all five types, unit bandpass, smearing flag, smearing_subsamples = max(1, ceil(|drift|/unit))) "
         "are call-site obligations, and the bounding box it requests provably contains every pixel within width/2 of every (smeared) signal "
         "centre for drift of either sign or zero and any width > 0 (incl. sub-channel), both orientations; with C06's restriction lemma this "
-        "gives equality with the general injection on the support and zero elsewhere.",
+        "gives equality with the general injection on the support and zero elsewhere. Also: unit_drift_rate = |df|/dt > 0 for frames built with a resolution of either sign and for frames loaded from files with negative foff.",
    note="trusted: pyvc engine; add_signal through its proved contract (C01/C06); wofz/exp/sinc uninterpreted",
    technique="contract-based deductive verification (modular call-site obligations, nonlinear coverage lemma); bounded native comparison with add_signal"),
  'C16': dict(cat='proof', ref='DESIGN.md 2/C16',
@@ -116,7 +116,7 @@ CLAIMS = {
         "(DIRECTIO 0/1/absent), decodes x/y and applies the requested FFT length and integration factor, output shape of get_pfb_waterfall; a stream's constant "
         "signal is level*cos(+-2pi((f_start-fch1)t + drift t^2/2) +- phase) at every sample for both orientations (chirp law). "
         "NOT decidable here: that a tone peaks within one fine bin of f (a DFT theorem) and the per-column value of the fine channelisation "
-        "(undecided within budget) - both carried by a bounded native run of the real pipeline.",
+        "(undecided within budget) - both carried by a bounded native run of the real pipeline. Also: the header written for antenna arrays (OBSBW spans one antenna's band), the stream's time axis is contiguous across requests and the antenna clock follows its streams (C10's contracts).",
    note="trusted: pyvc engine; header formulas proved in C04; tone localisation and fine-channel values bounded only (level 'other' for that reason)",
    technique="contract-based deductive verification for the header/reader clauses; bounded native pipeline runs for tone localisation"),
  'C02': dict(cat='proof', ref='DESIGN.md 2/C02',
@@ -136,7 +136,7 @@ CLAIMS = {
         "requantisation of (input sample at the same (c,t,p) + synthetic sample requantised with zero mean and gain channelized_stds x "
         "digitiser target deviation), the gain passed is the same in every sub-block and the filterbank's channelized_stds are never "
         "modified (frame condition inside the loop invariant), target means restored; requantize=False is rejected. from_data: header "
-        "size == the input's written header size for every card count (padded iff DIRECTIO != 0), same block size / bit depth / channel and block counts. Bounded native run: decode round trip, framing, flat added power per sub-block. Also: every requantiser of a from_data backend and both of its components use the input's bit depth (4- and 8-bit inputs).",
+        "size == the input's written header size for every card count (padded iff DIRECTIO != 0), same block size / bit depth / channel and block counts. Bounded native run: decode round trip, framing, flat added power per sub-block. Also: every requantiser of a from_data backend and both of its components use the input's bit depth (4- and 8-bit inputs). Also: every (antenna, polarisation) owns its digitiser / filterbank / requantiser objects; every estimate_channelized_stds call channelises fresh noise with its own filterbank; the requested length is clamped to the input and everything reported comes from the clamped count.",
    note="trusted: pyvc engine; input files follow the writer layout of C04; stage contracts modular; one antenna in the injection contract, taps enumerated; requantiser target statistics bounded only",
    technique="contract-based deductive verification (loop invariant incl. frame condition, modular stage contracts, symbolic file layout); bounded native replay"),
  'C11': dict(cat='other', ref='DESIGN.md 2/C11',
@@ -145,7 +145,7 @@ CLAIMS = {
         "returned array is exactly what was added, the generator advances one draw per pixel, first noise on an empty frame sets the estimates to "
         "the parameters (else exactly one sigma-clipped re-estimate), table sampling uses table entries / one common index / IndexError on "
         "unequal lengths, intensity and SNR are mutually inverse and raise without noise, stream deviations add in quadrature incl. the shared "
-        "background. NOT decidable by a contract: that numpy's samplers have the stated moments - an axiom here, probed by a bounded 6-sigma run. Also: the constructor sets k = 4*round(df*dt) for every construction route (C05's constructor contract, discharged again).",
+        "background. NOT decidable by a contract: that numpy's samplers have the stated moments - an axiom here, probed by a bounded 6-sigma run. Also: the constructor sets k = 4*round(df*dt) for every construction route (C05's constructor contract, discharged again). Also: a frame constructed around existing data starts with the sigma-clipped statistics of that data.",
    note="level 'other': the headline distributional clause is probabilistic and about a third-party sampler; everything else is discharged",
    technique="contract-based deductive verification for formulas/bookkeeping (ghost generator stream); bounded statistical run for the distributions"),
  'C12': dict(cat='other', ref='DESIGN.md 2/C12',
@@ -180,7 +180,7 @@ CLAIMS = {
         "start time, orientation and source name (round-trip lemma over the two contracts). get_fs/get_ts/get_data return axes of exactly "
         "nchans / integration-count entries = fch1+i*foff, i*tsamp - also in the floating-point rounding model, i.e. for every header value. "
         "NOT decidable by a contract here: what blimpy writes to and reads from disk (external library; its assumed contract is that files carry "
-        "header + container-described data) - bounded native round trips over 13 construction routes x 2 formats with blimpy as independent reader.",
+        "header + container-described data) - bounded native round trips over 13 construction routes x 2 formats with blimpy as independent reader. Also: a frame re-timed after its Waterfall was requested is described with its current start time; slices / de-drifted frames keep the name the file will carry; min/max frequency helpers = ends of the axis by orientation.",
    note="level 'other': the file itself is produced and parsed by blimpy; the contract side proves what setigen hands over and reads back",
    technique="contract-based deductive verification (postcondition + frame condition over arbitrary prior state, composition lemma, fp-relerr mode for axis lengths); bounded native file round trips"),
 }
